@@ -130,7 +130,7 @@ func walkValue(v any, t at.Type, depth int, where string) (*Node, error) {
 	return n, nil
 }
 
-const maxWalkDepth = 2000
+const maxWalkDepth = 2000000
 
 func walkList(l at.List, depth int, where string) (*Node, error) {
 	if depth > maxWalkDepth {
